@@ -4,6 +4,9 @@
      primfeed  <tag> <hex> <c1,c2,..|k*>  -> <RC> <total consumed> <contents hex | ->
      chainfeed <t1,t2,..> <hex> <c1,..|k*> -> <RC> <total consumed> step=<n> left=<z> context=<z>
                                               (ctx->step, ctx->left, ctx->context of the C after the last call)
+     chainfeedm <key 0 step|1 tagno> <tag_mode> <last_tag_form> <t1,t2,..|-> <hex> <c1,..|k*>
+                                          -> the same line for Rt/ResumeT.v chainm_step (ber_check_tags with tag_mode / last_tag_form)
+     primfeedm <tag_mode> <t1,t2,..> <hex> <c1,..|k*> -> <RC> <total consumed> <contents hex | ->   (ResumeT.primm_step)
      entfeed   <hex> <c1,..|k*>           -> <RC> <total consumed> <string decoded so far, hex>     (Rt/ResumeX.v entref_step)
      entpfx    <hex>                      -> the first call on every prefix of 0..n octets: <M|O|F><consumed>,...
      skipfeed  <full 0|1> <hex> <c1,..|k*> -> <RC> <total consumed>                                  (skip_step)
@@ -122,6 +125,17 @@ let dispatch cmd args =
       let ((c, n), ctx) = feed0 (chain_step tl) chain_ctx0 (chunks_of (bytes_of_hex h) sched) in
       Some (Printf.sprintf "%s %d step=%d left=%s context=%s" (code_s c) (int_of_nat n) (int_of_nat ctx.cstep)
               (string_of_cz ctx.cleft) (string_of_cz ctx.cctx))
+  | "chainfeedm", [key; mode; ltf; tags; h; sched] ->
+      let tl = if tags = "-" then [] else List.map cz_of_string (String.split_on_char ',' tags) in
+      let k = if key = "1" then KTagno else KStep in
+      let ((c, n), ctx) = feed0 (chainm_step k (cz_of_string mode) (cz_of_string ltf) tl) chain_ctx0 (chunks_of (bytes_of_hex h) sched) in
+      Some (Printf.sprintf "%s %d step=%d left=%s context=%s" (code_s c) (int_of_nat n) (int_of_nat ctx.cstep)
+              (string_of_cz ctx.cleft) (string_of_cz ctx.cctx))
+  | "primfeedm", [mode; tags; h; sched] ->
+      let tl = if tags = "-" then [] else List.map cz_of_string (String.split_on_char ',' tags) in
+      let ((c, n), ctx) = feed0 (primm_step (cz_of_string mode) tl) None (chunks_of (bytes_of_hex h) sched) in
+      Some (Printf.sprintf "%s %d %s" (code_s c) (int_of_nat n)
+              (match c, ctx with OK, Some [] -> "-" | OK, Some bs -> hex_of_bytes bs | _ -> "-"))
   | "entfeed", [h; sched] ->
       let ((c, n), acc) = feed0 entref_step [] (chunks_of (bytes_of_hex h) sched) in
       Some (Printf.sprintf "%s %d %s" (code_s c) (int_of_nat n) (if acc = [] then "-" else hex_of_bytes acc))
